@@ -103,6 +103,18 @@ def explore(ctx, depth):
 
 
     token_level(ctx, depth)
+    document_level(ctx, depth)
+
+
+def document_level(ctx, depth):
+    """whole documents with clef changes, chords and splits: the agnostic export differs from the kern export only in the pitch letters of
+    notes, each converted under the clef in force (tracked on the source grid along the spine paths)"""
+    import docrun
+    cases = docrun.make_cases(ctx, 15 if depth == 'quick' else 200, profiles=('free', 'core'))
+    docrun.run_option_sets(ctx, cases, [{'enc': 'akern', 'include': None, 'exclude': None}, {'enc': 'aekern', 'include': None, 'exclude': None}],
+                           lambda case: [{}],
+                           'the agnostic export of a document is not the kern export with the pitch letters converted under the clef in force for each note',
+                           'agnostic document')
 
 
 def token_level(ctx, depth):
